@@ -8,10 +8,10 @@ props = [json.loads(l) for l in open(os.path.join(HERE, "properties.jsonl"))]
 CHECKS = {
  "C01": dict(cat="model_checking", engine="simcluster", technique="explicit-state DFS (prefix replay, state-hash pruning) of the real controller over all event orders/batches against a reference cluster; trace replay on the in-process virtual cluster",
              text="Every delivery order and batching (bound 2/3) of completion/transfer/fetch events is enumerated for each job x cluster x requested-set configuration, running the real controller, scheduler, runner, Memory and serde; each terminal state's outputs are compared with a sequential interpreter. Exhaustive within the stated family, which unit tests cannot reach because they sample one schedule.",
-             note="Cluster behind Bridge is the SimCluster reference model (eager causal execution, exactly-once FIFO-per-origin delivery); jobs <= 5 tasks, <= 4 hosts; conformance of the model is checked by replaying traces on vcluster.", ref="DESIGN.md 2.4, 3 C01"),
+             note="Cluster behind Bridge is the SimCluster reference model (eager causal execution, exactly-once FIFO-per-origin delivery); jobs <= 7 tasks, <= 4 hosts; the model is bound to the code by replaying maximal model traces (one per distinct command sequence) on vcluster with the real controller and executor stack, and vcluster itself is explored with delay bound 1.", ref="DESIGN.md 2.4, 3 C01"),
  "C02": dict(cat="model_checking", engine="simcluster", technique="explicit-state DFS of the real controller with dispatch monitors; exhaustive arrival-order enumeration for the worker loop",
              text="Dispatch monitors (exactly once, existing free worker, GPU, inputs produced and on host or in transfer) are evaluated on every Bridge call of every explored schedule, including every feasible GPU-worker subset.",
-             note="'busy' judged from events delivered to the controller; reference cluster model as in C01.", ref="DESIGN.md 3 C02"),
+             note="'busy' judged from events delivered to the controller; reference cluster model and conformance replay as in C01; the worker-side clause runs the real worker loop under every arrival order of the command and its input notices.", ref="DESIGN.md 3 C02"),
  "C03": dict(cat="model_checking", engine="simcluster", technique="explicit-state DFS of the real controller; termination/progress monitors on every execution",
              text="All executions are finite (finite event supply), so the complete DFS covers every fair delivery order: each must return with all tasks done, outputs fetched, shutdown called, no idle round, no wait with nothing outstanding, no exception from bookkeeping.",
              note="Assumes exactly-once event delivery (C06); jobs incl. empty, isolated tasks, more/fewer components than hosts, GPU components.", ref="DESIGN.md 3 C03"),
@@ -95,7 +95,7 @@ def main():
         "engines": [
             {"name": "simcluster", "path": "vf/simcluster.py", "serves_properties": ["C01", "C02", "C03", "C04"],
              "kind_free_text": "stateless DFS with prefix replay + state-hash pruning over the real controller.run against a reference cluster behind the Bridge interface"},
-            {"name": "vcluster", "path": "vf/vcluster.py", "serves_properties": ["C05"],
+            {"name": "vcluster", "path": "vf/vcluster.py", "serves_properties": ["C01", "C02", "C03", "C04", "C05"],
              "kind_free_text": "whole distributed runtime as baton-passing virtual processes in one process (fake zmq/UDP/time/multiprocessing/SharedMemory), deterministic scheduler with fault injection"},
             {"name": "bfs", "path": "vf/checks", "serves_properties": ["C06", "C07", "C08", "C09", "C18"],
              "kind_free_text": "explicit-state BFS over operation histories (fresh real objects rebuilt per history, canonical state hashing)"},
